@@ -178,7 +178,8 @@ impl SimdVarintCodec {
             return Err(ZiporaError::invalid_data("Empty data for varint decoding"));
         }
 
-        let mut output = Vec::with_capacity(count);
+        // count is caller / header supplied; every value takes at least one byte of input
+        let mut output = Vec::with_capacity(count.min(data.len()));
 
         match self.tier {
             VarintSimdTier::Avx2Bmi2 if count >= SIMD_BATCH_THRESHOLD && data.len() >= 32 => {
